@@ -347,6 +347,7 @@ Inductive sop :=
 | SRel
 | SWait (n : nat)
 | SReadPrio | SReadAll
+| SReadPart                   (* one byte of the second chunk of every multi-chunk file *)
 | SBg (n : nat) (f : fault) (intf : bool).
 
 Inductive res := ROk | RErr | RTimeout | RStalled | RNone.
@@ -488,6 +489,14 @@ Definition sstep (c : cfg) (fs : list file) (pre : list Z) (s : sst) (o : sop) :
         let loc := files_local s sel && lossless_now c s in
         if loc then (s, mkPred (Some ROk) None None true)
         else if s_reg s && lossless_now c s then (add_fs s (all_keys sel), mkPred (Some ROk) None None false)
+        else (inexact s, mkPred (Some ROk) None None false)
+  | SReadPart =>
+      if busy then (s, mkPred (Some RNone) None None false)
+      else
+        let keys := flat_map (fun f => if f_land f then [] else
+                                match f_chunks f with _ :: (co, cz) :: _ => [(f_id f, co, cz)] | _ => [] end) fs in
+        if subK keys (s_fs s) && lossless_now c s then (s, mkPred (Some ROk) None None true)
+        else if s_reg s && lossless_now c s then (add_fs s keys, mkPred (Some ROk) None None false)
         else (inexact s, mkPred (Some ROk) None None false)
   | SBg n f intf =>
       let n := Nat.max n 1 in
